@@ -465,3 +465,20 @@ fn sieve_block(s: &SieveQS, st: &mut Sieve, roots: [&[u32]; 2], backward: bool) 
         s.rels.write().unwrap().add(rel, pq);
     }
 }
+
+/// Access to private items for the verification harness.
+#[cfg(yamaquasi_verif)]
+pub mod verif_access {
+    use super::*;
+
+    pub fn prepare_prime_fwd(s: &SieveQS, pidx: usize) -> (u32, u32) {
+        s.prepare_prime_fwd(pidx)
+    }
+    pub fn prepare_prime_bck(s: &SieveQS, pidx: usize) -> (u32, u32) {
+        s.prepare_prime_bck(pidx)
+    }
+    /// (sqrt base, only_odds, blocks per large block)
+    pub fn sieve_params(s: &SieveQS) -> (I256, bool, usize) {
+        (s.nsqrt, s.only_odds, s.nblocks())
+    }
+}
